@@ -30,14 +30,15 @@ func raceAndPlain() []variant {
 
 func init() {
 	reg(&propCfg{ID: "C02", Pkg: "./props/c02", Variants: func(tier string) []variant {
-		vs := []variant{{Name: "tracked", Shim: "tracked", Run: "^TestProp$", Shards: 16, Env: []string{"GOMAXPROCS=4"}}}
+		vs := []variant{{Name: "tracked", Shim: "tracked", Run: "^TestProp$", Shards: 16, Env: []string{"GOMAXPROCS=4"}},
+			{Name: "conservation", Shim: "tracked", Run: "^TestConservation$", Shards: 4, Env: []string{"GOMAXPROCS=6"}}}
 		if tier == "thorough" {
 			vs = append(vs, variant{Name: "tracked-p2", Shim: "tracked", Run: "^TestProp$", Shards: 16, Env: []string{"GOMAXPROCS=2"}})
 		}
 		return vs
 	},
-		Level:       "held on every recorded history: every program of 2 threads x <=2 calls and 3 threads x 1 call over each of the 8 types' single-element operations (the cache both with live entries only and starting from expired-but-unpurged entries) with a 2-value (thorough 3-value) alphabet and 3 small initial states, each executed 16 (thorough 48, and again with GOMAXPROCS=2) times under seeded delays at lock boundaries (readers are refused while a writer is pending, as sync.RWMutex does, so a recursive read lock ends in the logical deadlock verdict), plus seeded larger programs, plus deep tables (a BsTree whose root has two children; Queue and Stack - thorough: also LQueue, LStack, Heap - holding 300 elements with membership probes at positions 0/63/64/127/128/129/255/256/299); every history (with a sequential observation suffix) checked by porcupine against the implementation replayed sequentially",
-		Technique:   "client-boundary history recorder + porcupine linearizability checker with the sequentially replayed implementation as specification, executions under the tracked sync shim (seeded delays between critical sections)",
+		Level:       "held on every recorded history: every program of 2 threads x <=2 calls and 3 threads x 1 call over each of the 8 types' single-element operations (the cache both with live entries only and starting from expired-but-unpurged entries) with a 2-value (thorough 3-value) alphabet and 3 small initial states, each executed 16 (thorough 48, and again with GOMAXPROCS=2) times under seeded delays at lock boundaries (readers are refused while a writer is pending, as sync.RWMutex does, so a recursive read lock ends in the logical deadlock verdict), plus seeded larger programs, plus deep tables (a BsTree whose root has two children; Queue and Stack - thorough: also LQueue, LStack, Heap - holding 300 elements with membership probes at positions 0/63/64/127/128/129/255/256/299; BsTreeDeep also with Traverse as an operation); every history (with a sequential observation suffix) checked by porcupine against the implementation replayed sequentially; plus a conservation monitor: 64 (thorough 640) long concurrent runs with unique values on Stack/Queue/LQueue/Heap grown to 600-6000 elements and drained 3-8 times under the same seeded delays, checked offline (nothing foreign, nothing twice, put = taken + final drain)",
+		Technique:   "client-boundary history recorder + porcupine linearizability checker with the sequentially replayed implementation as specification, executions under the tracked sync shim (seeded delays between critical sections); offline conservation checker over long unique-value runs",
 		Assumptions: []string{"interleavings are those the runtime + seeded delays produce (measured: distinct lock-acquisition orders are reported); not exhaustive, a split section that no run opens is missed", "relies on C01 for races inside one lock acquisition (no delay is injected there)", "the sequential behaviour itself is judged by C03-C09, not here", "porcupine v1.3.0 is trusted"}})
 	reg(&propCfg{ID: "C01", Pkg: "./props/c01", Variants: c01Variants,
 		Level:       "held on every executed scenario: every unordered pair (incl. self-pairs) of public methods of each of the 8 lock-guarded types (cache with and without the cleanup goroutine) x initial states {0,1,3 elements} x randomised start order x 20 (thorough 200) repetitions under the race detector with yields injected at every lock boundary, the same scenarios x 40 (300) under the tracked shim (deadlock verdict, leaked lock, usability afterwards, panic filter), long random mixes; thorough adds triples and GOMAXPROCS in {16,4,2,1}",
